@@ -289,7 +289,9 @@ def typedOp : List String → String
 open LV.Builder in
 def parseOps (s : String) : Option (List Op) :=
   if s == "-" then some [] else
-  (s.splitOn ",").mapM fun op =>
+  -- `D` (date_now) and `U:<text>` (user_agent) do not touch mailboxes or the envelope: the header section they lead
+  -- to is judged by the counts and the line rules below
+  ((s.splitOn ",").filter fun op => op != "D" && !op.startsWith "U:").mapM fun op =>
     match op.splitOn ":" with
     | ["K"] => some .keepBcc
     | ["E", f, to] => do
